@@ -17,7 +17,7 @@ import (
 func HRandomNumber() {
 	k := vr.Param(0)
 	vr.FaultAt(k)
-	n0 := len(vr.RandIntLog())
+	n0 := len(vr.RandAllLog())
 	x, err := GenerateRandomNumber()
 	if k > 0 && vr.RandReads() >= k {
 		// the injected failure happened during this call (possibly after rejected draws)
@@ -31,8 +31,8 @@ func HRandomNumber() {
 	lo, _ := new(big.Int).SetString("100000000000000000000000000000000", 16)       // 2^128
 	hi, _ := new(big.Int).SetString("1"+vZeros512, 16) // 2^2048
 	vr.Assert("c09.range", x.Cmp(lo) >= 0 && x.Cmp(hi) < 0)
-	log := vr.RandIntLog()
-	vr.Assert("c09.from-source", len(log) > n0 && x.Cmp(new(big.Int).SetBytes(log[len(log)-1])) == 0)
+	log := vr.RandAllLog()
+	vr.Assert("c09.from-source", vFromSource(x, log[n0:]))
 	n1 := len(log)
 	y, err := GenerateRandomNumber()
 	if k > 0 && vr.RandReads() >= k {
@@ -41,9 +41,22 @@ func HRandomNumber() {
 	}
 	vr.Assert("c09.rand2.noerr", err == nil && y != nil)
 	if err == nil && y != nil {
-		log = vr.RandIntLog()
-		vr.Assert("c09.second-is-a-new-draw", len(log) > n1 && y.Cmp(new(big.Int).SetBytes(log[len(log)-1])) == 0)
+		log = vr.RandAllLog()
+		vr.Assert("c09.second-is-a-new-draw", vFromSource(y, log[n1:]))
 	}
+}
+
+// vFromSource: the exponent is made of the last 2048 bits the random source delivered during the call
+// (whatever the number of reads, rejected draws included).
+func vFromSource(x *big.Int, deliveries [][]byte) bool {
+	var all []byte
+	for _, d := range deliveries {
+		all = append(all, d...)
+	}
+	if len(all) < 256 {
+		return false
+	}
+	return x.Cmp(new(big.Int).SetBytes(all[len(all)-256:])) == 0
 }
 
 // HNewIKESAKeyFault (C09): NewIKESAKey propagates a failure of the random source: error, no key.
